@@ -48,12 +48,27 @@ func caseLines(s scn, ro *runOut) []string {
 		lines = append(lines, "mk "+e)
 	}
 	lines = append(lines, ro.destLine)
+	if ro.dlLine != "" {
+		lines = append(lines, ro.dlLine)
+	}
 	for _, ev := range ro.res.Events {
 		lines = append(lines, "sys "+ev.Call)
 	}
 	lines = append(lines, "end", "readers", "check", "temps")
+	if s.K == 0 && ro.res.Completed {
+		// the decision of the writer (complete runs): what the client saw of every response, and what each attempt
+		// did with it — real code vs. the model's transport + fetchDecision / unpack decision
+		if ro.dlLine != "" {
+			lines = append(lines, "http", "outcome")
+		}
+		if ro.upLine != "" {
+			lines = append(lines, ro.upLine)
+		}
+	}
 	if pl := progLine(s); pl != "" {
 		lines = append(lines, pl)
+	} else if ro.progLine != "" {
+		lines = append(lines, ro.progLine)
 	}
 	return lines
 }
@@ -106,23 +121,12 @@ func progLine(s scn) string {
 		}
 		return fmt.Sprintf("prog createatomic tmpdir=%s optdir=%s mode=%s readfails=0", tmpdir, optdir, mode)
 	case "fetch":
-		if s.Var == "signed-main" || s.Var == "signed-sig" || s.Var == "missing-sig" {
-			return "" // two published files (resource and signature): checked through the recorded sequence only
+		if s.Var == "signed-sig" || s.Var == "missing-sig" {
+			return "" // the observed destination is the signature file: checked through the recorded sequence only
 		}
-		hf, bf := "0", "0"
-		if s.Fail == "404" {
-			hf = "1"
-		}
-		if s.Fail == "short" {
-			bf = "1"
-		}
-		return fmt.Sprintf("prog fetch storage=R/dst mode=0 httpfails=%s bodyfails=%s", hf, bf)
+		return fmt.Sprintf("prog download tmpdir=%s storage=R/dst mode=0", tmpdir)
 	case "file-unpack":
-		rf := "0"
-		if s.Fail == "corrupt" {
-			rf = "1"
-		}
-		return fmt.Sprintf("prog fileunpack tmpdir=%s optdir=R/dst/tmp mode=0 readfails=%s", tmpdir, rf)
+		return "" // needs what compress/gzip makes of the file: built with the scenario (runOut.progLine)
 	}
 	return ""
 }
@@ -178,6 +182,34 @@ func (e *c17exec) Do(line string) string {
 			return "ok"
 		}
 		return "dest-differs " + e.ro.destLine
+	case "dl":
+		if line == e.ro.dlLine {
+			return "ok"
+		}
+		return "dl-differs " + e.ro.dlLine
+	case "http":
+		// what the observing transport of the writer process saw of every response for the resource
+		for _, l := range strings.Split(e.ro.res.WriterOut, "\n") {
+			if strings.HasPrefix(l, "http: ") {
+				return strings.TrimPrefix(l, "http: ")
+			}
+			if l == "http:" {
+				return ""
+			}
+		}
+		return "no-http-report"
+	case "outcome":
+		return observedOutcomes(e.ro)
+	case "unpack":
+		if d, ok := parseDest(e.ro.destLine); ok {
+			for _, ev := range e.ro.res.Events {
+				f := strings.Fields(ev.Call)
+				if ev.Res == "ok" && f[0] == "rename" && f[2] == d.path {
+					return "publish"
+				}
+			}
+		}
+		return "no-publish"
 	case "sys":
 		if e.i >= len(e.ro.res.Events) {
 			return "trace-ended"
@@ -228,6 +260,88 @@ func (e *c17exec) Do(line string) string {
 		return "ok"
 	}
 	return "bad-op"
+}
+
+// observedOutcomes reads off the recorded calls what every attempt of a download did: a pending file created in
+// the registry's tmp dir for the resource starts an attempt; the bytes written to it; whether it was renamed onto
+// the destination (and whether a signature file was renamed into place during the attempt). An attempt that
+// ended before a pending file existed is visible only through its signature request.
+func observedOutcomes(ro *runOut) string {
+	d, ok := parseDest(ro.destLine)
+	if !ok {
+		return "no-dest"
+	}
+	base := d.path[strings.LastIndexByte(d.path, '/')+1:]
+	sigDest := ""
+	for _, kv := range strings.Fields(ro.dlLine) {
+		if strings.HasPrefix(kv, "sigdest=") && kv != "sigdest=-" {
+			sigDest = strings.TrimPrefix(kv, "sigdest=")
+		}
+	}
+	type att struct {
+		tmp, fd  string
+		written  int64
+		pub, sig bool
+		open     bool
+	}
+	var atts []*att
+	for _, ev := range ro.res.Events {
+		if ev.Res != "ok" {
+			continue
+		}
+		f := strings.Fields(ev.Call)
+		var cur *att
+		if len(atts) > 0 {
+			cur = atts[len(atts)-1]
+		}
+		switch f[0] {
+		case "open":
+			if strings.HasPrefix(f[1], "R/dst/tmp/."+base+"#") && strings.Contains(f[2], "excl") {
+				atts = append(atts, &att{tmp: f[1], fd: strings.TrimPrefix(f[len(f)-1], "fd="), open: true})
+			}
+		case "write":
+			if cur != nil && cur.open && f[1] == cur.fd {
+				if p := strings.Split(f[2], ":"); len(p) == 3 {
+					var n int64
+					fmt.Sscan(p[2], &n)
+					cur.written += n
+				}
+			}
+		case "close":
+			if cur != nil && f[1] == cur.fd {
+				cur.open = false
+			}
+		case "rename":
+			if cur != nil && f[1] == cur.tmp && f[2] == d.path {
+				cur.pub = true
+			}
+			if cur != nil && sigDest != "" && f[2] == sigDest {
+				cur.sig = true
+			}
+		}
+	}
+	var out []string
+	for _, a := range atts {
+		o := "abort"
+		if a.pub {
+			o = "publish"
+			if a.sig {
+				o = "publish+sig"
+			}
+		}
+		out = append(out, fmt.Sprintf("%s:%d", o, a.written))
+	}
+	if len(atts) == 0 {
+		for _, l := range strings.Split(ro.res.WriterOut, "\n") {
+			var n int
+			if _, err := fmt.Sscanf(l, "sigreqs: %d", &n); err == nil {
+				for i := 0; i < n; i++ {
+					out = append(out, "none:0")
+				}
+			}
+		}
+	}
+	return strings.Join(out, ";")
 }
 
 func (e *c17exec) allObsAllowed() bool {
@@ -596,6 +710,9 @@ func generate(r *hxlib.Run, emit func(hxlib.Case)) {
 		}
 		n := ro.res.NKill
 		limit := r.Budget(14, 400)
+		if strings.Contains(s.Srv, "+") {
+			limit = r.Budget(8, 40) // every run of a retry scenario waits out the real back-off (1 s) of the updater
+		}
 		ks := []int{}
 		if n <= limit {
 			for k := 1; k <= n; k++ {
@@ -634,6 +751,22 @@ func generate(r *hxlib.Run, emit func(hxlib.Case)) {
 		r.Count("old:" + s.Old)
 		r.Count("tmp:" + s.TmpMode)
 		r.Count("fail:" + s.Fail)
+		if s.Writer == "fetch" {
+			srv := s.Srv
+			if srv == "" || srv == "-" {
+				srv = map[string]string{"short": "len-rst@half", "404": "st404"}[s.Fail]
+				if srv == "" {
+					srv = "ok"
+				}
+			}
+			for i, st := range strings.Split(srv, "+") {
+				if j := strings.IndexByte(st, '@'); j >= 0 {
+					st = st[:j]
+				}
+				r.Count(fmt.Sprintf("server:attempt%d:%s", i+1, st))
+			}
+			r.Count("fetch-variant:" + s.Var)
+		}
 		if s.Pre > 0 {
 			r.Count("history:after-interrupted-run")
 		} else {
